@@ -111,6 +111,12 @@ def run(ctx):
             if e.q == K + 'Action::update_remains':
                 n2 += 1
                 arg = strip(e.args[0])
+                if arg[0] == 'call' and arg[1].split('<')[0] in ('std::min', 'fmin', 'std::fmin') and len(arg[3]) == 2:
+                    # min(amount x time, remains): the same subtraction, capped by what is left
+                    parts = [strip(x) for x in arg[3]]
+                    rest = [x for x in parts if not (x[0] == 'call' and x[1].endswith(('::get_remains', '::get_remains_no_update')))]
+                    if len(rest) == 1:
+                        arg = rest[0]
                 fac = product_factors(arg)
                 whole = arg[0] == 'call' and arg[1].endswith('::get_remains') and arg[2] == e.obj
                 ok = whole
